@@ -142,6 +142,86 @@ class Src:
         self.s = s
         return self
 
+    def for_continue_to_else(self):
+        """R24: inside a `for` loop body, a guard `if C { S; continue; }` (no else, direct statement of the body)
+        becomes `if C { S; } else { <rest of the body> }`.  Same control flow; Verus has no `continue` in for-loops."""
+        changed = 0
+        for _round in range(20):
+            toks = lex(self.s)
+            edit = None
+            for k, t in enumerate(toks):
+                if t[1] != 'for' or t[0] != 'id':
+                    continue
+                if k > 0 and toks[k - 1][1] not in (';', '{', '}'):
+                    continue            # `impl X for Y`, `for<'a>` ...
+                # body = first depth-0 brace group after `for`
+                j = k + 1
+                depth = 0
+                body = None
+                while j < len(toks):
+                    x = toks[j][1]
+                    if toks[j][0] == 'op':
+                        if x in '([':
+                            depth += 1
+                        elif x in ')]':
+                            depth -= 1
+                        elif x == '{' and depth == 0:
+                            body = (j, match_close(toks, j))
+                            break
+                        elif x == ';' and depth == 0:
+                            break
+                    j += 1
+                if not body:
+                    continue
+                bo, bc = body
+                # direct statements: look for `if` at depth 0 of the body
+                i = bo + 1
+                while i < bc:
+                    x = toks[i]
+                    if x[0] == 'op' and x[1] in '([{':
+                        i = match_close(toks, i) + 1
+                        continue
+                    if x[0] == 'id' and x[1] == 'if' and toks[i - 1][1] in (';', '{', '}'):
+                        # find the if-block
+                        m = i + 1
+                        d2 = 0
+                        blk = None
+                        while m < bc:
+                            y = toks[m]
+                            if y[0] == 'op':
+                                if y[1] in '([':
+                                    d2 += 1
+                                elif y[1] in ')]':
+                                    d2 -= 1
+                                elif y[1] == '{' and d2 == 0:
+                                    blk = (m, match_close(toks, m))
+                                    break
+                            m += 1
+                        if not blk:
+                            break
+                        io, ic = blk
+                        has_else = ic + 1 < bc and toks[ic + 1][1] == 'else'
+                        last = ic - 1
+                        if toks[last][1] == ';':
+                            last -= 1
+                        if (not has_else and toks[last][1] == 'continue' and toks[last][0] == 'id'
+                                and toks[last - 1][1] in (';', '{', '}')):
+                            edit = (toks[last][2], toks[ic - 1][3], toks[ic][3], toks[bc][2])
+                            break
+                        i = ic + 1
+                        continue
+                    i += 1
+                if edit:
+                    break
+            if not edit:
+                break
+            c0, c1, after_if, body_close = edit
+            self.s = (self.s[:c0] + self.s[c1:after_if] + ' else {' + self.s[after_if:body_close] + '}\n' + self.s[body_close:])
+            changed += 1
+        if changed:
+            self.note('R24', '%d guard-continue statements of for-loops turned into if/else' % changed)
+        return self
+
     # ---- targeted rules --------------------------------------------------
     def _fn_match(self, name, nth=0):
         ms = list(re.finditer(r'(?m)^([ \t]*)((pub(\([a-z]+\))? )?(async )?fn ' + name + r'\b)', self.s))
@@ -280,6 +360,8 @@ class Src:
         return self
 
     def text(self):
+        # R24 runs last: loops already turned into `while` by R19/R21 keep their `continue`
+        self.for_continue_to_else()
         return self.s
 
 
